@@ -39,7 +39,7 @@ COMPONENTS = {
     "stub_or_harness": ["history generator", "spec/value generators", "reference spec parser (which members are public)"],
 }
 FAULT_KINDS = ["sibling_instance_created", "setattr_attempt", "delattr_attempt", "source_list_mutation", "returned_value_mutation_attempt"]
-PROBES = ["snapshot_unavailable", "member_unreadable_before_assignment", "serialize_into_shared_writer", "twin_instance_compared", "reincarnated_instance_compared", "serialize_into_nonempty_writer", "unserializable_instance_observed", "invalid_instance", "live_sequence_view_argument", "packet_write_method", "serialize_into_sanitising_writer", "array_element_mutation_attempt", "array_of_structs", "optional_array_present", "blob_on_deserialized_instance", "case_data_mutated_through_parent",
+PROBES = ["looked_at_like_a_python_object", "snapshot_unavailable", "member_unreadable_before_assignment", "serialize_into_shared_writer", "twin_instance_compared", "reincarnated_instance_compared", "serialize_into_nonempty_writer", "unserializable_instance_observed", "invalid_instance", "live_sequence_view_argument", "packet_write_method", "serialize_into_sanitising_writer", "array_element_mutation_attempt", "array_of_structs", "optional_array_present", "blob_on_deserialized_instance", "case_data_mutated_through_parent",
           "one_shot_iterator_argument", "nested_instance_setattr", "byte_size_setattr", "first_serialize_failed_skipped",
           "tree_rejected", "returned_value_was_mutable"]
 
@@ -196,6 +196,11 @@ def gen_ops(inst, rng, n):
             continue
         if r < 0.25:
             ops.append(["serialize_shared"])
+            continue
+        if rng.random() < 0.08:
+            # the instance (or something nested in it) is looked at the way Python programs look at objects
+            ops.append(["look", targets[rng.randrange(len(targets))][0],
+                        rng.choice(["hash", "eq", "repr", "str", "copy", "deepcopy", "in_set", "dict_key", "format", "bool", "dir"])])
             continue
         ti = rng.randrange(len(targets))
         path, obj, cls_name = targets[ti]
@@ -378,6 +383,42 @@ def run_history(inst, ops, res, tr, case, shape):
                             f"sanitising mode by the caller, used before by other instances) gave "
                             f"{out.hex() if isinstance(out, bytes) else out}, a fresh writer gave {first.hex() if isinstance(first, bytes) else first}")
             continue
+        if name == "look":
+            try:
+                target = resolve(inst, op[1])
+            except Exception:
+                continue
+            import copy as _copy
+            how = op[2]
+            try:
+                if how == "hash":
+                    hash(target)
+                elif how == "eq":
+                    _ = (target == target, target != inst.obj, target == 7)
+                elif how == "repr":
+                    repr(target)
+                elif how == "str":
+                    str(target)
+                elif how == "copy":
+                    inst.siblings.append(_copy.copy(target))
+                elif how == "deepcopy":
+                    inst.siblings.append(_copy.deepcopy(target))
+                elif how == "in_set":
+                    _ = target in {target}
+                elif how == "dict_key":
+                    _ = {target: 1}[target]
+                elif how == "format":
+                    f"{target}"
+                elif how == "bool":
+                    bool(target)
+                else:
+                    dir(target)
+            except Exception:  # noqa  (whether an instance is hashable / copyable is not the property)
+                pass
+            res.count("probe.looked_at_like_a_python_object")
+            res.keys.add(f"{shape}|{inst.origin}|look|{how}")
+            tr.ev(step, name, str(op[1]), how)
+            continue        # the snapshot / serialization comparisons of the following steps judge the effect
         if name in ("setattr", "delattr"):
             try:
                 target = resolve(inst, op[1])
